@@ -108,13 +108,13 @@ def gen_cases(ctx, tier):
     # take done, inside the retire sequence.
     full0 = PUSH_STEPS + TAKE_STEPS + RETIRE_STEPS
     for pre in (0, 2, 4, 8, 11, 13, 14, 15, 16, 17):
-        rest = min(full0 - pre, 10 if tier == "quick" else 14)
+        rest = min(full0 - pre, 14)
         for il in core.interleavings([rest, PUSH_STEPS]):
             cases.append(core.fmt_case([DMAX], [[(PUSH, 2)], [(PUSH, 3)]], [0] * pre + il))
     # the same with thread 1 pushing twice (the second push may find the worker
     # retired and become the worker itself)
     for pre in (11, 13, 15, 16, 17):
-        ils = core.interleavings([min(full0 - pre, 6), 2 * PUSH_STEPS])
+        ils = core.interleavings([min(full0 - pre, 6 if tier == "quick" else 8), 2 * PUSH_STEPS])
         for il in ils:
             cases.append(core.fmt_case([DMAX], [[(PUSH, 2)], [(PUSH, 3), (PUSH, 4)]], [0] * pre + il))
     n_ex = len(cases)
@@ -200,7 +200,7 @@ def search(ctx, exe):
         rng_ctx.cleanup()
     impl = core.run_sharded([exe], cases)
     for c, line in zip(cases, impl):
-        why = monitor(c, core.parse_trace(line) if line else None, line)
+        why = monitor(c, core.parse_trace(line) if line is not None else None, line)
         if why:
             core.report_violation(ctx, "wq", c, why, line)
             if len(ctx.violations) >= 3:
